@@ -201,6 +201,11 @@ def parse_spec(path):
                     hdr = line.rstrip('\n').split(None, 3)
                     cur = dict(kind='loop', fn=hdr[1], k=int(hdr[2]),
                                prefix=(hdr[3] if len(hdr) > 3 else ''), line=ln, text=[])
+                elif kind == '@top':
+                    m = re.match(r'@top\s+(before|after)\s+/(.*)/\s*$', line)
+                    if not m:
+                        raise WeaveError("%s:%d: bad @top" % (path, ln))
+                    cur = dict(kind='top', fn=None, where=m.group(1), regex=m.group(2), line=ln, text=[])
                 elif kind == '@ghost':
                     m = re.match(r'@ghost\s+(\w+)\s+(before|after)\s+/(.*)/\s*$', line)
                     if not m:
@@ -267,6 +272,15 @@ def check_ghost_text(text, where):
         if 'vg_' not in ctx:
             raise WeaveError("%s: ghost ++/-- on non-ghost" % where)
 
+def check_top_text(text, where):
+    """File-level ghost text: declarations of vg_ objects only (no function bodies)."""
+    m = mask_c(text)
+    if '{' in m or '}' in m:
+        raise WeaveError("%s: @top text may not contain braces" % where)
+    for stmt in m.split(';'):
+        if stmt.strip() and 'vg_' not in stmt:
+            raise WeaveError("%s: @top declares a non-ghost name: %s" % (where, stmt.strip()))
+
 # ------------------------------------------------------------------ weaving --------------------
 
 def norm_ws(s):
@@ -279,6 +293,20 @@ def weave_text(text, entries, relpath, specpath):
     order = 0
     for e in entries:
         fn = e['fn']
+        if e['kind'] == 'top':
+            where = "%s:%d" % (specpath, e['line'])
+            check_top_text(e['text'], where)
+            ms = list(re.finditer(e['regex'], text))
+            if len(ms) != 1:
+                raise WeaveError("%s: top anchor /%s/ matched %d times in %s" % (where, e['regex'], len(ms), relpath))
+            pos = ms[0].start() if e['where'] == 'before' else ms[0].end()
+            lineno = text.count('\n', 0, pos) + 1
+            s = ("\n" + OPEN + "\n#line %d \"%s\"\n" % (e['line'] + 1, specpath) + e['text'] +
+                 ("" if e['text'].endswith('\n') else "\n") +
+                 "#line %d \"%s\"\n" % (lineno, relpath) + CLOSE)
+            inserts.append((pos, order, s))
+            order += 1
+            continue
         if fn not in funcs:
             raise WeaveError("%s:%d: function %s not found in %s" % (specpath, e['line'], fn, relpath))
         f = funcs[fn]
